@@ -1,6 +1,6 @@
 //! C24 / C23: the zone-file parser and the std parsers it relies on.
 //! Cases: `zf <mode> <hexfile>`, `zfx <mode> <hexfile> <hex of the expected output>` (C23), (mode `w` = Cursor, `b<k>` = a Read that returns at most k octets
-//! per call), `u8|u16|u32|ip4|ip6|class|type|utf8 <hexstring>`.
+//! per call), `zro <mode> <hexfile>` (the same through `Parser::records_only()`), `u8|u16|u32|ip4|ip6|class|type|utf8 <hexstring>`.
 use std::io::{self, Cursor, Read};
 use std::net::{Ipv4Addr, Ipv6Addr};
 use std::num::IntErrorKind;
@@ -9,7 +9,7 @@ use quandary::class::Class;
 use quandary::name::Name;
 use quandary::rr::Type;
 use quandary::zone_file::error::{Error, ErrorKind};
-use quandary::zone_file::{Line, LineContent, Parser};
+use quandary::zone_file::{Line, LineContent, ParsedRr, Parser, RecordsOnly};
 use qv_harness::*;
 
 struct Chunked {
@@ -66,25 +66,34 @@ fn show_name(n: &Name) -> String {
     format!("{}/{}", hex(n.wire_repr()), n.len())
 }
 
+fn show_record(number: usize, r: &ParsedRr) -> String {
+    let v = match r.rdata.validate(r.class, r.rr_type) {
+        Ok(()) => "ok",
+        Err(_) => "bad",
+    };
+    format!(
+        "R{} o={} t={} c={} y={} d={} v={}",
+        number,
+        show_name(&r.owner),
+        u32::from(r.ttl),
+        u16::from(r.class),
+        u16::from(r.rr_type),
+        hex(r.rdata.octets()),
+        v
+    )
+}
+
+fn show_error(e: &Error) -> String {
+    match e {
+        Error::Syntax(d) => format!("E{}:{} {}", d.line(), d.column(), kind(d.kind())),
+        Error::Io(_) => "EIO".to_string(),
+    }
+}
+
 fn show_item(item: &Result<Line, Error>) -> String {
     match item {
         Ok(line) => match &line.content {
-            LineContent::Record(r) => {
-                let v = match r.rdata.validate(r.class, r.rr_type) {
-                    Ok(()) => "ok",
-                    Err(_) => "bad",
-                };
-                format!(
-                    "R{} o={} t={} c={} y={} d={} v={}",
-                    line.number,
-                    show_name(&r.owner),
-                    u32::from(r.ttl),
-                    u16::from(r.class),
-                    u16::from(r.rr_type),
-                    hex(r.rdata.octets()),
-                    v
-                )
-            }
+            LineContent::Record(r) => show_record(line.number, r),
             LineContent::Include(i) => format!(
                 "I{} p={} o={}",
                 line.number,
@@ -95,8 +104,7 @@ fn show_item(item: &Result<Line, Error>) -> String {
                 }
             ),
         },
-        Err(Error::Syntax(d)) => format!("E{}:{} {}", d.line(), d.column(), kind(d.kind())),
-        Err(Error::Io(_)) => "EIO".to_string(),
+        Err(e) => show_error(e),
     }
 }
 
@@ -113,6 +121,34 @@ fn run_parser<S: Read>(mut p: Parser<S>) -> String {
     }
     out.push(format!("after={after}"));
     out.join(" ; ")
+}
+
+/// The records-only iterator: items until the first None, then three more calls.
+fn run_records_only<S: Read>(mut p: RecordsOnly<S>) -> String {
+    let mut out: Vec<String> = Vec::new();
+    for item in p.by_ref() {
+        out.push(match &item {
+            Ok(l) => show_record(l.number, &l.record),
+            Err(e) => show_error(e),
+        });
+    }
+    let mut after = 0;
+    for _ in 0..3 {
+        if p.next().is_some() {
+            after += 1;
+        }
+    }
+    out.push(format!("after={after}"));
+    out.join(" ; ")
+}
+
+fn run_zro(mode: &str, data: Vec<u8>) -> String {
+    if mode == "w" {
+        run_records_only(Parser::new(Cursor::new(data)).records_only())
+    } else {
+        let k: usize = mode[1..].parse().expect("mode");
+        run_records_only(Parser::new(Chunked { data, pos: 0, k }).records_only())
+    }
 }
 
 fn run_zf(mode: &str, data: Vec<u8>) -> String {
@@ -135,7 +171,8 @@ fn main() {
     run_lines(|f| {
         let op = f[0];
         match op {
-            "zf" | "zfx" => run_zf(f[1], unhex(f[2])),
+            "zf" | "zfx" | "zrc" => run_zf(f[1], unhex(f[2])),
+            "zro" => run_zro(f[1], unhex(f[2])),
             "u8" => with_str(&unhex(f[1]), |s| match s.parse::<u8>() {
                 Ok(v) => format!("ok {v}"),
                 Err(e) => format!("err {}", int_err(e.kind())),
